@@ -18,6 +18,8 @@ pub enum VTy {
     Data(usize, Vec<VTy>),
     Thk(Box<CTy>),
     Var(TyVarId),
+    /// `exists (T : VType) . A` — an abstract package
+    Exists(TyVarId, Box<VTy>),
 }
 
 #[derive(Clone, Debug, PartialEq, Eq, Hash)]
@@ -94,6 +96,7 @@ impl VTy {
                     self.clone()
                 }
             }
+            | VTy::Exists(b, body) => VTy::Exists(*b, Box::new(body.subst(tv, with))),
         }
     }
     pub fn subst_c(&self, tv: TyVarId, with: &CTy) -> VTy {
@@ -103,6 +106,7 @@ impl VTy {
             | VTy::Named(items) => VTy::Named(items.iter().map(|(n, t)| (n.clone(), t.subst_c(tv, with))).collect()),
             | VTy::Data(d, args) => VTy::Data(*d, args.iter().map(|t| t.subst_c(tv, with)).collect()),
             | VTy::Thk(c) => VTy::Thk(Box::new(c.subst_c(tv, with))),
+            | VTy::Exists(b, body) => VTy::Exists(*b, Box::new(body.subst_c(tv, with))),
         }
     }
     pub fn mentions_tyvar(&self) -> bool {
@@ -113,7 +117,13 @@ impl VTy {
             | VTy::Data(_, args) => args.iter().any(|t| t.mentions_tyvar()),
             | VTy::Thk(c) => c.mentions_tyvar(),
             | VTy::Var(_) => true,
+            // (conservative: the bound variable counts)
+            | VTy::Exists(..) => true,
         }
+    }
+    /// Does the type mention this particular type variable (free)?
+    pub fn mentions(&self, tv: TyVarId) -> bool {
+        self.subst(tv, &VTy::Unit) != *self
     }
     pub fn size(&self) -> usize {
         match self {
@@ -122,6 +132,7 @@ impl VTy {
             | VTy::Named(items) => 1 + items.iter().map(|(_, t)| t.size()).sum::<usize>(),
             | VTy::Data(_, args) => 1 + args.iter().map(|t| t.size()).sum::<usize>(),
             | VTy::Thk(c) => 1 + c.size(),
+            | VTy::Exists(_, body) => 1 + body.size(),
         }
     }
 }
@@ -209,6 +220,9 @@ pub enum Pat {
     Rec(Vec<(String, Pat)>),
     /// alias pattern `(p; q)`: all patterns bind the same value
     Alias(Vec<Pat>),
+    /// `(T, p)`: opens a package, binding the abstract type `T` and matching the contents against `p`. The last field is
+    /// for error injection only: a variable of the abstract type bound by `p`, and the witness the package was built with.
+    Unpack(TyVarId, Box<Pat>, Option<(VarId, VTy)>),
 }
 
 #[derive(Clone, Debug)]
@@ -223,6 +237,8 @@ pub enum Val {
     Thunk(Box<Comp>, CTy),
     /// projection of a named field: (head, field name, position, head type)
     Proj(Box<Val>, String, usize, VTy),
+    /// `(W, v)` at an existential type: `v` has the body type at the witness `W`
+    Pack { witness: VTy, body: Box<Val> },
 }
 
 #[derive(Clone, Debug)]
@@ -269,7 +285,7 @@ impl Pat {
             | Pat::Var(v) => out.push(*v),
             | Pat::Wild | Pat::Unit => {}
             | Pat::Tuple(ps) | Pat::Alias(ps) => ps.iter().for_each(|p| p.binders(out)),
-            | Pat::Ctor(_, _, p) => p.binders(out),
+            | Pat::Ctor(_, _, p) | Pat::Unpack(_, p, _) => p.binders(out),
             | Pat::Rec(fs) => fs.iter().for_each(|(_, p)| p.binders(out)),
         }
     }
@@ -282,6 +298,7 @@ impl Pat {
             | Pat::Tuple(ps) | Pat::Alias(ps) => ps.iter().any(|p| p.has_ctor()),
             | Pat::Ctor(..) => true,
             | Pat::Rec(fs) => fs.iter().any(|(_, p)| p.has_ctor()),
+            | Pat::Unpack(_, p, _) => p.has_ctor(),
         }
     }
 }
